@@ -369,10 +369,12 @@ def check_property(prop, tier, seed, reg):
                 violations.append((R, f))
     # optional kani twins (thorough tier, or to find a failing input for a violation)
     kani_results = []
-    if P.get("kani") and (tier == "thorough" or violations or P.get("kani_quick")) and not os.environ.get("VERIF_NO_KANI"):
+    # ... and when a Verus unit is UNDECIDED (unsupported construct, lost anchor): a complete Kani harness on the real crate can still
+    # decide its part of the property, and a failing one yields a concrete counterexample (a Kani pass does not lift the exit code 2)
+    if P.get("kani") and (tier == "thorough" or violations or undecided or P.get("kani_quick")) and not os.environ.get("VERIF_NO_KANI"):
         try:
             from . import kani as K
-            kani_results = K.run_group(P["kani"], prop, tier, REPO, ROOT, only_quick=(tier == "quick" and not violations))
+            kani_results = K.run_group(P["kani"], prop, tier, REPO, ROOT, only_quick=(tier == "quick" and not violations and not undecided))
         except Exception as e:  # tooling problem: never an alarm
             kani_results = [dict(harness="*", status="error", detail="kani runner failed: %s" % e, kind="bounded")]
     out_lines = []
